@@ -360,7 +360,7 @@ fn parse_diff_header_line(line: &str, git_diff_name: bool) -> (String, FileEvent
 }
 
 /// Given input like "diff --git a/src/my file.rs b/src/my file.rs"
-/// return Some("src/my file.rs")
+/// or "diff --cc src/my file.rs" return Some("src/my file.rs")
 pub fn get_repeated_file_path_from_diff_line(line: &str) -> Option<String> {
     if let Some(line) = line.strip_prefix("diff --git ") {
         let line: Vec<&str> = line.graphemes(true).collect();
@@ -370,6 +370,14 @@ pub fn get_repeated_file_path_from_diff_line(line: &str) -> Option<String> {
             let second_path = _parse_file_path(&line[midpoint + 1..].join(""), true);
             if first_path == second_path {
                 return Some(first_path);
+            }
+        }
+    }
+    // A combined diff names its single file without a/ b/ prefixes: "diff --cc src/my file.rs"
+    for prefix in ["diff --cc ", "diff --combined "] {
+        if let Some(path) = line.strip_prefix(prefix) {
+            if !path.is_empty() {
+                return Some(remove_surrounding_quotes(path).to_string());
             }
         }
     }
